@@ -362,36 +362,133 @@ Proof.
     destruct (eval_f64 e d) as [v| | |]; cbn [app fold_left length]; rewrite IH; f_equal; lia.
 Qed.
 
-Lemma min_fold : forall e rows m,
-  fold_left acc_step rows (AMin m e) =
-  AMin (fold_left (fun acc v => if fltb v acc then v else acc) (numeric_args e rows) m) e.
+(** min / max keep the integer arguments (an integer, or text holding one: [exact_int_of])
+    apart from the other numeric arguments: the former are compared exactly, the latter as doubles *)
+Definition int_args (e : expr) (rows : list data) : list Z :=
+  flat_map (fun d => match exact_int_of (eval e d) with Some i => [i] | None => [] end) rows.
+Definition float_args (e : expr) (rows : list data) : list f64 :=
+  flat_map (fun d => match exact_int_of (eval e d) with
+                     | Some _ => []
+                     | None => match eval_f64 e d with Ok v => [v] | _ => [] end
+                     end) rows.
+
+(** an integer argument is numeric, and the double the other accumulators see is its conversion *)
+Lemma exact_int_f64 : forall e d i,
+  exact_int_of (eval e d) = Some i -> eval_f64 e d = Ok (f_of_Z i).
 Proof.
-  intros e rows. unfold numeric_args. induction rows as [|d rows IH]; intro m; [reflexivity|].
-  cbn [fold_left flat_map acc_step].
-  destruct (eval_f64 e d) as [v| | |]; cbn [app fold_left]; try apply IH.
-  destruct (fltb v m); apply IH.
+  intros e d i H. unfold eval_f64. destruct (eval e d) as [v| | |]; try discriminate H.
+  destruct v as [s|z|f|b|ns|ns|kvs|l|]; try discriminate H; cbn [exact_int_of] in H.
+  - cbn [bind to_f64_agg]. unfold aggressively_to_num.
+    destruct (from_string s) as [s'|z|f|b|ns|ns|kvs|l|]; try discriminate H.
+    inversion H; subst. reflexivity.
+  - inversion H; subst. reflexivity.
 Qed.
 
-Lemma max_fold : forall e rows m,
-  fold_left acc_step rows (AMax m e) =
-  AMax (fold_left (fun acc v => if fltb acc v then v else acc) (numeric_args e rows) m) e.
+(** the numeric arguments are the integer ones (converted) together with the others *)
+Lemma numeric_args_split : forall e rows,
+  Permutation (numeric_args e rows) (map f_of_Z (int_args e rows) ++ float_args e rows).
 Proof.
-  intros e rows. unfold numeric_args. induction rows as [|d rows IH]; intro m; [reflexivity|].
+  intros e rows. unfold numeric_args, int_args, float_args.
+  induction rows as [|d rows IH]; [apply perm_nil|].
+  cbn [flat_map]. destruct (exact_int_of (eval e d)) as [i|] eqn:Ei.
+  - rewrite (exact_int_f64 _ _ _ Ei). cbn [app map]. apply perm_skip. exact IH.
+  - cbn [app map]. destruct (eval_f64 e d) as [v| | |]; cbn [app]; try exact IH.
+    apply Permutation_cons_app. exact IH.
+Qed.
+
+Lemma numeric_args_nil : forall e rows,
+  numeric_args e rows = [] -> int_args e rows = [] /\ float_args e rows = [].
+Proof.
+  intros e rows H. pose proof (numeric_args_split e rows) as P. rewrite H in P.
+  apply Permutation_nil in P. apply app_eq_nil in P. destruct P as [P1 P2].
+  split; [|exact P2]. apply map_eq_nil in P1. exact P1.
+Qed.
+
+(** the exact extremum of a list of integers *)
+Definition minZ (zs : list Z) : option Z :=
+  match zs with [] => None | z :: r => Some (fold_left Z.min r z) end.
+Definition maxZ (zs : list Z) : option Z :=
+  match zs with [] => None | z :: r => Some (fold_left Z.max r z) end.
+
+Definition imin_step (o : option Z) (i : Z) : option Z :=
+  Some (match o with Some s => Z.min i s | None => i end).
+Definition imax_step (o : option Z) (i : Z) : option Z :=
+  Some (match o with Some s => Z.max i s | None => i end).
+
+Lemma imin_fold_some : forall zs s, fold_left imin_step zs (Some s) = Some (fold_left Z.min zs s).
+Proof.
+  induction zs as [|z zs IH]; intro s; [reflexivity|].
+  cbn [fold_left]. unfold imin_step at 2. rewrite IH, (Z.min_comm z s). reflexivity.
+Qed.
+Lemma imax_fold_some : forall zs s, fold_left imax_step zs (Some s) = Some (fold_left Z.max zs s).
+Proof.
+  induction zs as [|z zs IH]; intro s; [reflexivity|].
+  cbn [fold_left]. unfold imax_step at 2. rewrite IH, (Z.max_comm z s). reflexivity.
+Qed.
+Lemma imin_fold_none : forall zs, fold_left imin_step zs None = minZ zs.
+Proof. intros [|z zs]; [reflexivity|]. cbn [fold_left minZ]. apply imin_fold_some. Qed.
+Lemma imax_fold_none : forall zs, fold_left imax_step zs None = maxZ zs.
+Proof. intros [|z zs]; [reflexivity|]. cbn [fold_left maxZ]. apply imax_fold_some. Qed.
+
+Lemma min_fold : forall e rows m mi,
+  fold_left acc_step rows (AMin m mi e) =
+  AMin (fold_left (fun acc v => if fltb v acc then v else acc) (float_args e rows) m)
+       (fold_left imin_step (int_args e rows) mi) e.
+Proof.
+  intros e rows. unfold float_args, int_args.
+  induction rows as [|d rows IH]; intros m mi; [reflexivity|].
   cbn [fold_left flat_map acc_step].
-  destruct (eval_f64 e d) as [v| | |]; cbn [app fold_left]; try apply IH.
-  destruct (fltb m v); apply IH.
+  destruct (exact_int_of (eval e d)) as [i|] eqn:Ei.
+  - rewrite (exact_int_f64 _ _ _ Ei). cbn [app fold_left]. apply IH.
+  - destruct (eval_f64 e d) as [v| | |]; cbn [app fold_left]; try apply IH.
+    destruct (fltb v m); apply IH.
+Qed.
+
+Lemma max_fold : forall e rows m mi,
+  fold_left acc_step rows (AMax m mi e) =
+  AMax (fold_left (fun acc v => if fltb acc v then v else acc) (float_args e rows) m)
+       (fold_left imax_step (int_args e rows) mi) e.
+Proof.
+  intros e rows. unfold float_args, int_args.
+  induction rows as [|d rows IH]; intros m mi; [reflexivity|].
+  cbn [fold_left flat_map acc_step].
+  destruct (exact_int_of (eval e d)) as [i|] eqn:Ei.
+  - rewrite (exact_int_f64 _ _ _ Ei). cbn [app fold_left]. apply IH.
+  - destruct (eval_f64 e d) as [v| | |]; cbn [app fold_left]; try apply IH.
+    destruct (fltb m v); apply IH.
+Qed.
+
+(** the min / max cell: the exact extremum of the integer arguments against the
+    double extremum of the others ([minmax_emit]) *)
+Lemma min_emit : forall e rows,
+  acc_emit (fold_left acc_step rows (acc_empty (FMin e))) =
+  Ok (minmax_emit true
+        (fold_left (fun acc v => if fltb v acc then v else acc) (float_args e rows) f_inf)
+        (minZ (int_args e rows))).
+Proof.
+  intros e rows. cbn [acc_empty]. rewrite min_fold, imin_fold_none. reflexivity.
+Qed.
+Lemma max_emit : forall e rows,
+  acc_emit (fold_left acc_step rows (acc_empty (FMax e))) =
+  Ok (minmax_emit false
+        (fold_left (fun acc v => if fltb acc v then v else acc) (float_args e rows) f_neg_inf)
+        (maxZ (int_args e rows))).
+Proof.
+  intros e rows. cbn [acc_empty]. rewrite max_fold, imax_fold_none. reflexivity.
 Qed.
 
 (** a group without any numeric value reports None for min and max *)
 Lemma min_none : forall e rows, numeric_args e rows = [] ->
   acc_emit (fold_left acc_step rows (acc_empty (FMin e))) = Ok VNone.
 Proof.
-  intros e rows H. cbn [acc_empty]. rewrite min_fold, H. reflexivity.
+  intros e rows H. destruct (numeric_args_nil _ _ H) as [Hi Hf].
+  rewrite min_emit, Hi, Hf. reflexivity.
 Qed.
 Lemma max_none : forall e rows, numeric_args e rows = [] ->
   acc_emit (fold_left acc_step rows (acc_empty (FMax e))) = Ok VNone.
 Proof.
-  intros e rows H. cbn [acc_empty]. rewrite max_fold, H. reflexivity.
+  intros e rows H. destruct (numeric_args_nil _ _ H) as [Hi Hf].
+  rewrite max_emit, Hi, Hf. reflexivity.
 Qed.
 
 (** 7. count_distinct: the number of distinct (under ==) values of the argument *)
